@@ -67,6 +67,23 @@ def transition_summary(t, nparams):
     return tuple(sorted((k, kind(v, k)) for k, v in f.items()))
 
 
+def absent_means_false(a):
+    """the boolean `a` is `opt.map(pred).unwrap_or_default()` or one of its equivalent spellings
+    (`unwrap_or(false)`, `is_some_and(pred)`, `map_or(false, pred)`): a missing value counts as false"""
+    if a[0] != 'call':
+        return False
+    nc = norm_callee(a[1])
+    if nc.endswith('Option::unwrap_or_default') and a[2] and has_call(a[2][0], 'Option::map'):
+        return True
+    if nc.endswith('Option::unwrap_or') and len(a[2]) == 2 and a[2][1] == ('const', 'false') and has_call(a[2][0], 'Option::map'):
+        return True
+    if nc.endswith('Option::is_some_and'):
+        return True
+    if nc.endswith('Option::map_or') and len(a[2]) == 3 and a[2][1] == ('const', 'false'):
+        return True
+    return False
+
+
 def lifecycle_features(fn, facts):
     """comparable features of a CacheAccount lifecycle method (robust to the PlainAccount vs
     AccountInfo representation difference): (early-None status set, storage_was_destroyed
@@ -82,7 +99,16 @@ def lifecycle_features(fn, facts):
                 calls_.add(short(e.d['callee']))
                 if e.d['callee'].endswith('::on_changed'):
                     a = e.d['args'][1]
-                    feats.add(('on_changed-arg', has_call(a, 'AccountInfo::has_no_code_and_nonce') or 'has_no_code_and_nonce' in show(a), has_call(a, '::unwrap_or_default')))
+                    # per path: the predicate on the previous info when there was one, false when there was none
+                    if a[0] == 'call' and callee_matches(a[1], 'AccountInfo::has_no_code_and_nonce'):
+                        feats.add(('on_changed-arg', 'pred'))
+                    elif a in (('const', 'false'), ('const', 'Default::default()')):
+                        feats.add(('on_changed-arg', 'false'))
+                    elif absent_means_false(a) and 'has_no_code_and_nonce' in show(a):
+                        feats.add(('on_changed-arg', 'pred'))
+                        feats.add(('on_changed-arg', 'false'))
+                    else:
+                        feats.add(('on_changed-arg', 'other:' + show(a)[:60]))
         none = ret[0] == 'agg' and ret[2] == 'None'
         if none:
             feats.add(('early-none', tuple(sorted(cond))))
@@ -115,7 +141,7 @@ def SIB_lifecycle(ctx):
     # increment_balance / drain_balance go through account_info_change
     mine = ctx.fn('parallel_state::CacheAccountInfo::account_info_change')
     a, ca = lifecycle_features(mine, facts)
-    ok = ca == {'AccountStatus::on_changed'} and ('on_changed-arg', True, True) in a and \
+    ok = ca == {'AccountStatus::on_changed'} and {x for x in a if x[0] == 'on_changed-arg'} == {('on_changed-arg', 'pred'), ('on_changed-arg', 'false')} and \
         any(x[0] == 'transition' and x[2] is False and x[3] and x[4] and x[5] == 'false' and x[6] == 'default' for x in a)
     ctx.ob('SIB', mine, 'balance-change-transition', ok, f'{sorted(map(str, a))[:4]}', site=mine.loc(mine.b['lo']),
            what='increment/drain balance = on_changed(previous info had no code and nonce), storage untouched, storage_was_destroyed=false (as in revm CacheAccount::account_info_change)')
@@ -421,7 +447,7 @@ def BU_bundle(ctx):
            what='the two-phase builder is only equivalent to revm for an initially empty bundle (Vacant entries); any pre-populated part must go through revm\'s occupied-entry merge; exactly one revert list is pushed per block')
     # the map closure: uses revm's own per-transition helpers
     okh = set()
-    for b in ctx.facts.closures_under(f.name):
+    for b in ctx.facts.code_under(f.name):
         if True:
             for bl in b['blocks']:
                 t = bl['term']
